@@ -154,7 +154,7 @@ def run_cmd(args, console=False, cwd=None):
 def run_batch(sh, ctx):
 	rng = random.Random(f'C08-{ctx.seed}-{sh["sub"]}')
 	for wi in range(sh['nworlds']):
-		qw = QWorld(ctx, rng, f'w{wi}')
+		qw = QWorld(ctx, rng, rng.choice([f'w{wi}', f'w{wi} with space', f'w{wi}_\u00fcn\u00efcode']))
 		w = qw.w
 		alone = {}
 		# ---- alone runs (one genome, positional, no -c) for each format ------------------------------------------
@@ -192,7 +192,10 @@ def run_batch(sh, ctx):
 			cores = rng.choice([None, 1, 2, 3, 8, 16])
 			progress = rng.random() < 0.4
 			out = qw.dir / f'out{ci}.{fmt}'
-			args = ['-d', qw.db, 'query', '-f', fmt, '-o', out] + (['--progress'] if progress else ['--no-progress']) + (['--strict'] if strict else []) + (['-c', cores] if cores else [])
+			dbvia = rng.choice(['-d', '-d', 'env', '--db'])
+			ctx.count(f'db_given_via:{dbvia}')
+			dbargs = [] if dbvia == 'env' else [dbvia, qw.db]
+			args = dbargs + ['query', '-f', fmt, '-o', out] + (['--progress'] if progress else ['--no-progress']) + (['--strict'] if strict else []) + (['-c', cores] if cores else [])
 			labels = [f['label'] for f in batch]
 			qis = [f['qi'] for f in batch]
 			cwd = None
@@ -233,7 +236,12 @@ def run_batch(sh, ctx):
 				w.write_query_sigs(sf, which=qis, labels=ids)
 				labels = ids
 				args += ['-s', sf]
-			code, so, se, exc = run_cmd(args, cwd=cwd)
+			if dbvia == 'env':
+				os.environ['GAMBIT_DB_PATH'] = str(qw.db)
+			try:
+				code, so, se, exc = run_cmd(args, cwd=cwd)
+			finally:
+				os.environ.pop('GAMBIT_DB_PATH', None)
 			w_ = dict(channel=channel, fmt=fmt, strict=strict, cores=cores, progress=progress, order=order, batch=[f['rel'] for f in batch][:30], labels=labels[:30], stderr=se[-200:], exc=exc)
 			ctx.case(('batch', sh['sub'], wi, channel, fmt, strict, cores, progress, [f['rel'] for f in batch]), nontrivial=len(batch) >= 2,
 			         sample=dict(channel=channel, fmt=fmt, cores=cores, batch=[f['rel'] for f in batch][:5], labels=labels[:5]) if ci < 1 else None)
@@ -256,7 +264,12 @@ def run_batch(sh, ctx):
 			if ci % 4 == 1 and fmt in ('csv', 'json'):
 				out2 = qw.dir / f'fresh{ci}.{fmt}'
 				args2 = [str(out2) if a is out else a for a in args]
-				c2, so2, se2, _ = run_cmd(args2, console=True, cwd=cwd)
+				if dbvia == 'env':
+					os.environ['GAMBIT_DB_PATH'] = str(qw.db)
+				try:
+					c2, so2, se2, _ = run_cmd(args2, console=True, cwd=cwd)
+				finally:
+					os.environ.pop('GAMBIT_DB_PATH', None)
 				ctx.count('fresh_process_differentials')
 				if c2 != 0:
 					ctx.violation('command-fails', f'same command in a fresh process exited {c2}: {se2[-200:]}', w_)
